@@ -663,11 +663,10 @@ def unit_truediv(sess, ctx):
                 nv = RV.__new__(RV)
                 nv.sr, nv.sw, nv.ch, nv.bps, nv.ns, nv.data, nv.start = v.sr, v.sw, v.ch, v.bps, cnt, dspec, None
                 return region_obj(eng, nv)
+            eng.havoc_loop_locals(s, fr)
             fr.env["onset"] = onset
             fr.env["rest"] = rest
             fr.env["sub_regions"] = Seq("list", i, piece, A)
-            for nm in ("offset",):
-                fr.env.pop(nm, None)
             cond = eng.truth(eng.eval(s.test, fr))
             if k == 1:
                 eng.assume(Not(B(cond)))
@@ -864,6 +863,7 @@ def unit_check_iter_others(sess, ctx):
             eng.assume(And(j >= 0, j < O.K))
             el, ov = O.elem(eng, j)
             gh["j"], gh["el"], gh["yields"] = j, el, 0
+            eng.havoc_loop_locals(s, fr)
             eng.assign(s.target, el, fr)
             try:
                 eng.exec_block(s.body, fr)
